@@ -70,9 +70,23 @@ CLAIMED["C15"] = {
     "technique": "TLA+ model checking of the transcribed DFS/cache mechanism + TLC-enumerated graphs x histories replayed on the real containers + TLC trace validation against plain reachability",
 }
 
+CLAIMED["C14"] = {
+    "level": "model_checking",
+    "text": ("Digraph.tla defines the graph a set of nodes and triples denotes (adjacency in three directions with 'both' = in U out, "
+             "reach, shortest positive distances, deletion projections incl. nested, the walks TSBFS/TSDFS report, segments). TLC "
+             "enumerates every multigraph on 3 (thorough: 4) node ids with up to 3 (4) triples - isolated nodes, self loops, parallel "
+             "and antiparallel edges - and every projection set; each is built in all five container variants under four id layouts "
+             "and every observation table of the real code is validated by TLC against the spec operators."),
+    "design_ref": "DESIGN.md 4/C14",
+    "note": ("Exhaustive only for tiny graphs (the defects found all have 1-2 edge witnesses); adjacency compared as sets; TSBFS/TSDFS "
+             "with positive depth bound and directions out/in only (they have no cycle check); NumEdges of the adjacency map is not "
+             "part of the statement. One recorded finding (newline-framed BFS tree file) stays open."),
+    "technique": "TLA+ graph-semantics spec as trace-validation oracle over TLC-enumerated multigraphs and projections, five container variants",
+}
+
 _NB = "not built yet in this round (design in DESIGN.md section 4)"
 NOT_APPLICABLE = {
     "C01": "needs the emitted SQL executed on PostgreSQL; no SQL engine exists in this sandbox and a TLA+ model of PostgreSQL would verify the model, not DAWGS (DESIGN.md section 5)",
     "C02": _NB, "C03": _NB, "C04": _NB, "C05": _NB, "C06": _NB, "C07": _NB, "C08": _NB, "C09": _NB, "C10": _NB,
-    "C11": _NB, "C14": _NB, "C17": _NB, "C18": _NB, "C19": _NB, "C20": _NB,
+    "C11": _NB, "C17": _NB, "C18": _NB, "C19": _NB, "C20": _NB,
 }
